@@ -7,8 +7,8 @@
    backend b; `walked` = the meta tiles TileWalker processed (used by the tile-walk strategy only).
    spec_remaining older levels all cov msize c = c without the tiles of the selected levels that are older
    (or all) and whose meta tile intersects the coverage `cov`.
-   dim_visible / level_dir_named exclude the known findings F15 (dimension directories) and the tms level
-   directory name; both are shown to be necessary by the ..._refuted theorems below. *)
+   dim_visible excludes the known finding F15 (dimension directories); it is shown to be necessary by the
+   ..._refuted theorems at the end. *)
 From Coq Require Import ZArith List Bool.
 Import ListNotations.
 From MP Require Import Base Cleanup Cleanup_proofs.
@@ -21,12 +21,12 @@ Theorem cleanup_is_filter :
     cleanup_task b q msize t walked c = filter (fun e => negb (removed_by b q msize t walked e)) c.
 Proof. exact cleanup_task_filter. Qed.
 
-(* Directory strategy (complete extent, file cache with a directory per level): the tiles that remain are
-   exactly those the specification keeps, "older" meaning mtime < T strictly. *)
+(* Directory strategy (complete extent, file cache with a directory per level: tc, mp, tms, arcgis): the tiles
+   that remain are exactly those the specification keeps, "older" meaning mtime < T strictly. *)
 Theorem directory_remaining_is_spec :
   forall b q msize t walked c,
     strategy b t = SDir ->
-    (forall e, In e c -> is_tile e = true -> dim_visible b e = true /\ level_dir_named b e = true) ->
+    (forall e, In e c -> is_tile e = true -> dim_visible b e = true) ->
     filter is_tile (cleanup_task b q msize t walked c)
     = filter is_tile (spec_remaining (older_dir (t_T t)) (t_levels t) (t_all t) everywhere msize c).
 Proof. exact dir_remaining. Qed.
@@ -131,8 +131,7 @@ Theorem strategies_agree_off_boundary_file :
     strategy (BFile lay) (mkTask levels T all true false) = SDir ->
     0 < q ->
     (forall e, In e c -> is_tile e = true ->
-       dim_visible (BFile lay) e = true /\ level_dir_named (BFile lay) e = true
-       /\ 0 <= e_mtime e /\ e_mtime e / q <> T / q) ->
+       dim_visible (BFile lay) e = true /\ 0 <= e_mtime e /\ e_mtime e / q <> T / q) ->
     (forall e dim l x y, In e c -> e_place e = PTile dim l x y ->
        mem_coord (main_tile msize (x, y, l)) walked
        = memZ l levels && everywhere (main_tile msize (x, y, l))) ->
@@ -154,28 +153,34 @@ Theorem strategies_agree_off_boundary_sqlite :
     = filter is_tile (cleanup_task b q msize (mkTask levels T all false false) walked c).
 Proof. exact cache_walk_agree. Qed.
 
-(* Configuration loader: every task it yields for a cache without timestamp support has remove_all set
-   (remove_before is refused for such a cache) - the premise of backend_remaining_is_spec, except for
-   GeopackageLevelCache, see gpkglevel_remove_before_refuted. *)
+(* Configuration loader: every task it yields satisfies the premise of backend_remaining_is_spec
+   (remove_before is refused for a cache that stores no timestamps, per-level geopackage included). *)
 Theorem conf_guard :
-  forall init w s bs i T all b,
-    nth_error (conf_tasks init w s bs) i = Some (Some (T, all)) -> nth_error bs i = Some b ->
-    supports_timestamp b = true \/ all = true.
+  forall init w all0 bs i T all b,
+    nth_error (conf_tasks init w all0 bs) i = Some (Some (T, all)) -> nth_error bs i = Some b ->
+    stores_timestamp b = true \/ all = true.
 Proof. exact conf_tasks_guard. Qed.
 
-(* If every cache of the cleanup keeps timestamps, remove_all is exactly what was configured. *)
-Theorem conf_remove_all_as_configured_partial :
-  forall init w bs i T all,
-    (forall b, In b bs -> supports_timestamp b = true) ->
-    nth_error (conf_tasks init w (conf_all w) bs) i = Some (Some (T, all)) -> all = conf_all w.
-Proof. exact conf_tasks_no_leak. Qed.
+(* remove_all of each task is what was configured, or true because that cache keeps no timestamps; nothing
+   carries over from one cache of the cleanup to the next. *)
+Theorem conf_remove_all_as_configured :
+  forall init w all0 bs i T all b,
+    nth_error (conf_tasks init w all0 bs) i = Some (Some (T, all)) -> nth_error bs i = Some b ->
+    all = all0 || negb (supports_timestamp b).
+Proof. exact conf_tasks_nth. Qed.
 
-(* ---- refuted: the side conditions are necessary (each is a defect reproduced on the implementation) *)
+(* remove_before is refused (SeedConfigurationError) exactly for caches without timestamps. *)
+Theorem conf_remove_before_refused :
+  forall init w all b,
+    conf_step init w all b = None <-> (supports_timestamp b = false /\ exists T, w = WBefore T).
+Proof. exact conf_step_refused. Qed.
+
+(* ---- refuted: the side condition dim_visible is necessary (known finding F15, reproduced on the implementation) *)
 
 (* F15: directory strategy skips dimension directories. *)
 Theorem dimension_tiles_survive_directory_refuted :
   exists lay q msize t walked c e,
-    strategy (BFile lay) t = SDir /\ In e c /\ level_dir_named (BFile lay) e = true /\
+    strategy (BFile lay) t = SDir /\ In e c /\
     spec_removed (older_dir (t_T t)) (t_levels t) (t_all t) everywhere msize e = true /\
     In e (cleanup_task (BFile lay) q msize t walked c).
 Proof. exact dimension_tiles_survive_dir_refuted. Qed.
@@ -191,35 +196,3 @@ Theorem dimension_tiles_survive_tilewalk_refuted :
                  (t_levels t) (t_all t) cov msize e = true /\
     In e (cleanup_task (BFile lay) q msize t walked c).
 Proof. exact dimension_tiles_survive_walk_refuted. Qed.
-
-(* tms layout, levels 0..9: the cleaned directory "0N" is not the tile directory "N". *)
-Theorem tms_level_directory_refuted :
-  exists q msize t walked c e,
-    strategy (BFile LTms) t = SDir /\ In e c /\ dim_visible (BFile LTms) e = true /\
-    spec_removed (older_dir (t_T t)) (t_levels t) (t_all t) everywhere msize e = true /\
-    In e (cleanup_task (BFile LTms) q msize t walked c).
-Proof. exact tms_low_level_survives_refuted. Qed.
-
-(* GeopackageLevelCache with remove_before: complete extent removes nothing ... *)
-Theorem gpkglevel_remove_before_keeps_stale_refuted :
-  exists q msize t c e,
-    supports_timestamp BGpkgLevel = true /\ strategy BGpkgLevel t = SCache /\ In e c /\
-    is_stale BGpkgLevel q (t_T t) e = true /\
-    spec_removed (fun m => stale_walk q (t_T t) (seen_ts BGpkgLevel q m))
-                 (t_levels t) (t_all t) everywhere msize e = true /\
-    In e (cleanup_task BGpkgLevel q msize t [] c).
-Proof. exact gpkglevel_remove_before_refuted. Qed.
-
-(* ... and with a coverage it removes tiles stored after the remove time. *)
-Theorem gpkglevel_tilewalk_removes_newer_refuted :
-  exists q msize t walked c e,
-    strategy BGpkgLevel t = SWalk /\ t_all t = false /\ In e c /\ t_T t < (e_mtime e / q) * q /\
-    ~ In e (cleanup_task BGpkgLevel q msize t walked c).
-Proof. exact gpkglevel_walk_removes_newer_refuted. Qed.
-
-(* Configuration loader: remove_all leaks from a cache without timestamps to the caches after it. *)
-Theorem conf_remove_all_as_configured_refuted :
-  exists init bs i T b,
-    nth_error (conf_tasks init WDefault (conf_all WDefault) bs) i = Some (Some (T, true)) /\
-    nth_error bs i = Some b /\ supports_timestamp b = true.
-Proof. exact conf_remove_all_leak_refuted. Qed.
